@@ -622,7 +622,9 @@ def host_affine_conv(g):
     mul, aff = _affine(g, x, dtype, rank, C, tag, strict)
     if aff is None or aff.shape != x.shape:
         return None
-    pk = _opt(g, strict, ["zeros", "zeros", "zeros", "zeros", "autopad_notset", "autopad_valid", "autopad_same"], ["absent", "nonzero"])
+    # autopad_valid / autopad_same = auto_pad together with an explicit (zero) pads attribute: accepted by onnx.checker and
+    # onnx.reference, forbidden by the operator spec text and refused by onnxruntime -> rare, reference-only
+    pk = _opt(g, strict, ["zeros", "zeros", "zeros", "zeros", "zeros", "autopad_notset"], ["absent", "nonzero", "autopad_valid", "autopad_same"])
     ap = {"autopad_valid": "VALID", "autopad_notset": "NOTSET", "autopad_same": g.pick(["SAME_UPPER", "SAME_LOWER"])}.get(pk)
     pads = None
     if pk == "nonzero":
@@ -747,8 +749,10 @@ def _bn(g, y, M, tag, inter, strict):
     return _finish(g, r[:1], tag, inter=inter, strict=strict)
 
 
-def _conv_bias_for_bn(g, M, tag, strict):
+def _conv_bias_for_bn(g, M, tag, strict, force_absent=False):
     bk = _opt(g, strict, ["absent", "absent", "init", "init", "init"], ["node", "ovinit", "input", "identity", "empty"])
+    if force_absent:
+        bk = "absent"
     g.features.add(f"planted:{tag}:b_{bk}")
     if bk == "absent":
         return []
@@ -852,10 +856,8 @@ def host_bn_conv_transpose(g):
     x = _data(g, F32, (N, C, *sp), tag, pre=1)
     g.features.add(f"planted:{tag}:nd{nd}")
     w = _weight(g, F32, (C, M // group, *ks), how=_opt(g, strict, ["init"] * 5, _BN_BAD_HOW), tag=tag)
-    bias = _conv_bias_for_bn(g, M, tag, strict)
-    if group != 1 and bias and bias[0] is not None and g.chance(8):
-        bias = []  # onnx.reference mis-applies the bias of grouped ConvTranspose
-    ins = [x, w] + bias
+    # onnx.reference mis-applies the bias of grouped ConvTranspose: mostly no bias there
+    ins = [x, w] + _conv_bias_for_bn(g, M, tag, strict, force_absent=group != 1 and g.chance(8))
     y = g.emit("ConvTranspose", ins, **attrs)
     if not y:
         return None
